@@ -676,9 +676,21 @@ class SymMat:
 
     format = property(lambda self: self.fmt)
 
+    @staticmethod
+    def row_selection(q, n, sel, fmt="csr"):
+        """q x n matrix P with P[r, c] = 1 iff c == sel(r) (restriction to the entries sel(0..q-1)); closed forms for A @ P^T"""
+        m = SymMat(q, n, lambda r, c: z3.If(c == sel(r), z3.RealVal(1), z3.RealVal(0)), fmt)
+        m.rowsel = sel
+        return m
+
+    rowsel = None  # P[r, c] = [c == rowsel(r)]
+    colsel = None  # S[c, r] = [c == colsel(r)]  (the transpose of a row selection)
+
     def transpose(self):
         e = self._entry
-        return SymMat(self.nc, self.nr, lambda i, j: e(j, i), self.fmt, self.diag, self.zero)
+        t = SymMat(self.nc, self.nr, lambda i, j: e(j, i), self.fmt, self.diag, self.zero)
+        t.rowsel, t.colsel = self.colsel, self.rowsel
+        return t
 
     T = property(transpose)
 
@@ -740,6 +752,10 @@ class SymMat:
             if o.diag is not None:
                 d = o.diag
                 return SymMat(self.nr, o.nc, lambda i, j: a(i, j) * d(j), self.fmt)
+            if o.colsel is not None:
+                # A @ S with S[c, r] = [c == sel(r)]: column r of the product is column sel(r) of A
+                cs = o.colsel
+                return SymMat(self.nr, o.nc, lambda i, j: a(i, cs(j)), self.fmt)
             F = _abstract_fun("matmat", (self.key(), o.key()), 2)
             return SymMat(self.nr, o.nc, lambda i, j: F(i, j), self.fmt)
         if isinstance(o, SymArray):
